@@ -49,6 +49,37 @@ func TestC14Formatters(t *testing.T) {
 	rapid.Check(t, func(t *rapid.T) { formatterProp(t, sec) })
 }
 
+// earlier remembers the last few events and the exact line that was stored for them: a later Process call
+// on the same formatter kind must not alter what an earlier (possibly dropped) event carries.
+type earlierEv struct {
+	ev   *eventlogger.Event
+	line []byte
+	desc string
+}
+
+var (
+	earlierMu sync.Mutex
+	earlier   []earlierEv
+)
+
+func rememberAndRecheck(ev *eventlogger.Event, desc string) string {
+	earlierMu.Lock()
+	defer earlierMu.Unlock()
+	for _, old := range earlier {
+		got, ok := old.ev.Format(eventlogger.JSONFormat)
+		if !ok || !bytes.Equal(got, old.line) {
+			return fmt.Sprintf("the line stored for an EARLIER event changed after later Process calls: was %q, now %q (earlier case: %s)", old.line, got, old.desc)
+		}
+	}
+	if line, ok := ev.Format(eventlogger.JSONFormat); ok {
+		earlier = append(earlier, earlierEv{ev, append([]byte(nil), line...), desc})
+		if len(earlier) > 8 {
+			earlier = earlier[1:]
+		}
+	}
+	return ""
+}
+
 type caseSink interface {
 	Case(nontrivial bool, desc string, classes ...string)
 }
@@ -85,24 +116,48 @@ func formatterProp(t *rapid.T, s *stats.Section) {
 		predErr := errors.New("predicate failed")
 		var predArg interface{}
 		var n eventlogger.Node
+		reentry := rapid.SampledFrom([]string{"", "", "", "Format", "FormattedAs"}).Draw(t, "predicateReentry")
 		if node == "JSONFormatter" {
 			n = &eventlogger.JSONFormatter{}
 			pred = "nil"
 		} else {
 			ff := &eventlogger.JSONFormatterFilter{}
+			reenter := func(e interface{}) {
+				ev, ok := e.(*eventlogger.Event)
+				if !ok {
+					return
+				}
+				switch reentry {
+				case "Format":
+					_, _ = ev.Format(eventlogger.JSONFormat)
+				case "FormattedAs":
+					ev.FormattedAs("set-by-predicate", []byte("p"))
+				}
+			}
 			switch pred {
 			case "true":
-				ff.Predicate = func(e interface{}) (bool, error) { predArg = e; return true, nil }
+				ff.Predicate = func(e interface{}) (bool, error) { predArg = e; reenter(e); return true, nil }
 			case "false":
-				ff.Predicate = func(e interface{}) (bool, error) { predArg = e; return false, nil }
+				ff.Predicate = func(e interface{}) (bool, error) { predArg = e; reenter(e); return false, nil }
 			case "error":
-				ff.Predicate = func(e interface{}) (bool, error) { predArg = e; return false, predErr }
+				ff.Predicate = func(e interface{}) (bool, error) { predArg = e; reenter(e); return false, predErr }
 			case "true+error":
-				ff.Predicate = func(e interface{}) (bool, error) { predArg = e; return true, predErr }
+				ff.Predicate = func(e interface{}) (bool, error) { predArg = e; reenter(e); return true, predErr }
 			}
 			n = ff
 		}
-		out, err := n.Process(context.Background(), ev)
+		var out *eventlogger.Event
+		var err error
+		done := make(chan struct{})
+		go func() {
+			defer close(done)
+			out, err = n.Process(context.Background(), ev)
+		}()
+		select {
+		case <-done:
+		case <-time.After(10 * time.Second):
+			t.Fatalf("VIOLATION C14: Process did not return within 10s (predicate re-entry %q into the event's format table)\ncase: %s", reentry, desc)
+		}
 		enc := jsonval.Encodable(d)
 		if !enc {
 			if err == nil || out != nil {
@@ -188,7 +243,13 @@ func formatterProp(t *rapid.T, s *stats.Section) {
 				t.Fatalf("VIOLATION C14: an unrelated format entry was lost\ncase: %s", desc)
 			}
 		}
+		if msg := rememberAndRecheck(ev, desc); msg != "" {
+			t.Fatalf("VIOLATION C14: %s\ncase: %s", msg, desc)
+		}
 		cl := []string{"node=" + node, "pred=" + pred}
+		if reentry != "" && pred != "nil" {
+			cl = append(cl, "predicate_reentry="+reentry)
+		}
 		if d.HasHostile() {
 			cl = append(cl, "hostile_string")
 		}
